@@ -8,7 +8,7 @@ for id in ${RECHECK_IDS:-C01 C02 C03 C04 C05 C06 C07 C08 C09 C10 C11 C12 C13 C14
   python3 /verif/tools/seedcheck.py $id /tmp/seedout/$id --no-suite --checks $id$e1 >> $OUT 2>&1
   python3 /verif/tools/seedcheck.py $id /tmp/seedout2/$id --no-suite --suffix 2 --checks $id$e2 >> $OUT 2>&1
   python3 /verif/tools/seedcheck.py $id /tmp/seedout3/$id --no-suite --suffix 3 --checks $id$e3 >> $OUT 2>&1
-  for r in 4 5; do
+  for r in 4 5 6; do
     python3 /verif/tools/seedcheck.py $id /tmp/seedout$r/$id --no-suite --suffix $r --checks $(cat /tmp/seedout$r/$id/.checks 2>/dev/null || echo $id) >> $OUT 2>&1
   done
 done
